@@ -192,6 +192,13 @@ func ScanSnapshot(in io.Reader, prefix io.Writer, opts *Opts) (*Snapshot, []byte
 			}
 		}
 	}
+	if s.state == done && suffix == nil {
+		// The last line scanned was consumed, e.g. the race detector footer.
+		// Hand back what was read past it instead of dropping it.
+		if b := r.buffered(); len(b) != 0 {
+			suffix = append([]byte{}, b...)
+		}
+	}
 	if s.Goroutines != nil {
 		if opts.NameArguments {
 			nameArguments(s.Goroutines)
